@@ -18,20 +18,25 @@
      - every typed leaf reader on any content (BOOLEAN, NULL, the ten
        fixed-width integers, Integer, Unsigned, OID take/skip, BIT STRING
        take/skip) under any limit;
-     - every decoding program built from these (exec), from the top of an
-       input or inside any enclosing value;
+     - capture (the into_bytes assertion: what the closure advanced over never
+       exceeds the enclosing limit - by the lockstep invariant of DeltaP.v:
+       limit and data shrink together), raw Source scripts within the contract;
+     - EVERY decoding program of the program language (generic, typed,
+       optional, tag-selective reads, skips with filters, nested captures,
+       scripts, mode switches), from the top of an input or inside any
+       enclosing value - stated for the very function the streams evaluate;
      - accessors of accepted values: integer predicates/comparison/conversion,
        OID iteration and display, restricted-string iteration, bit access.
    PARTIAL - not proved on the model, decided by the correspondence streams
-   only: capture (the into_bytes assertion), raw Source scripts, OCTET STRING
-   segment iteration over captured constructed content (C16/C17 cover the
-   views), fuel adequacy of the model's loops (= termination; the streams run
-   with a hang watchdog), and everything a model cannot exhibit: process
-   abort, native stack depth and heap growth - measured by c01.entry,
-   c01.access and c01.deep on the real crate. *)
+   only: OCTET STRING segment iteration over captured constructed content and
+   OctetStringSource (C16/C17 cover the views), fuel adequacy of the model's
+   loops (= termination; the streams run with a hang watchdog), and
+   everything a model cannot exhibit: process abort, native stack depth and
+   heap growth - measured by c01.entry, c01.access and c01.deep on the real
+   crate. *)
 Require Import BV.Model.Base BV.Model.SrcB BV.Model.Length BV.Model.Tag BV.Model.Twos BV.Model.Int
                BV.Model.BitStr BV.Model.Oid BV.Model.Content BV.Model.Prog BV.Model.OctStr.
-Require Import BV.Proofs.ContentP BV.Proofs.TotalP BV.Proofs.IntP BV.Proofs.OctStrP.
+Require Import BV.Proofs.ContentP BV.Proofs.TotalP BV.Proofs.DeltaP BV.Proofs.IntP BV.Proofs.OctStrP.
 
 (* identifier and length octets, whatever follows and whatever the limit *)
 Theorem C01_headers : forall b m e,
@@ -70,14 +75,29 @@ Proof. exact Safe_skip_all_loop. Qed.
 Theorem C01_typed_leaves : forall ty m, Safe (L true) (typed_prim ty m) (fun _ => L true).
 Proof. exact Safe_typed_prim. Qed.
 
-(* every decoding program without raw scripts and captures: whole inputs, and
-   from any position inside an enclosing value *)
-Theorem C01_programs : forall fuel n m ps d, forallb (plain_p n) ps = true ->
+(* capture: for every well-behaved body, the octets handed to into_bytes never
+   exceed the enclosing limit; limit and data stay in lockstep *)
+Theorem C01_capture : forall T (c : cons) (op : cons -> M (T * cons)) b z,
+  (forall b' z', Safe (ILz c b' z') (op c) (fun rc s => ILz (snd rc) b' z' s /\ kp c (snd rc))) ->
+  Safe (ILz c b z) (capture c op) (fun r s => ILz (snd r) b z s /\ kp c (snd r)).
+Proof. exact @St_capture. Qed.
+
+(* raw Source scripts that stay within what request() granted *)
+Theorem C01_scripts : forall sc g lg z, Safe (SG z g) (run_script sc g lg) (fun _ => St true z).
+Proof. exact St_run_script. Qed.
+
+(* EVERY decoding program: whole inputs, and from any position inside an
+   enclosing value (any limit, data possibly shorter than the limit) *)
+Theorem C01_programs : forall fuel m ps d,
   fst (decode_src m (fun c => exec fuel ps c []) (pure_src d None)) <> Panic.
-Proof. exact program_never_panics. Qed.
-Theorem C01_programs_anywhere : forall fuel n ps c lg s, forallb (plain_p n) ps = true ->
+Proof. exact any_program_never_panics. Qed.
+Theorem C01_programs_anywhere : forall fuel ps c lg s,
   nf s -> inv c s -> fst (exec fuel ps c lg s) <> Panic.
-Proof. exact program_never_panics_anywhere. Qed.
+Proof. exact any_program_never_panics_anywhere. Qed.
+(* ... in terms of the function the correspondence streams evaluate: the
+   model never predicts the observation "panic" *)
+Theorem C01_model_never_predicts_panic : forall m code d, run_program m code d <> [3%Z].
+Proof. exact run_program_never_panics. Qed.
 
 (* accessors of accepted values rely on what decoding validated *)
 Theorem C01_integer_accessors : forall c, valid_int c ->
@@ -110,8 +130,11 @@ Print Assumptions C01_read_all.
 Print Assumptions C01_skip.
 Print Assumptions C01_skip_all.
 Print Assumptions C01_typed_leaves.
+Print Assumptions C01_capture.
+Print Assumptions C01_scripts.
 Print Assumptions C01_programs.
 Print Assumptions C01_programs_anywhere.
+Print Assumptions C01_model_never_predicts_panic.
 Print Assumptions C01_integer_accessors.
 Print Assumptions C01_integer_cmp.
 Print Assumptions C01_oid_iterates.
